@@ -444,6 +444,9 @@ impl Prop for C16 {
     fn id(&self) -> &'static str {
         "C16"
     }
+    fn supplement(&self, tier: Tier, seed: u64) -> (Vec<Violation>, Value) {
+        super::common::msim_supplement("C16", "reconnect", tier, seed)
+    }
     fn engine(&self) -> &'static str {
         "asim + tsim (shuttle)"
     }
